@@ -17,7 +17,7 @@ func init() {
 		Explanation: "Decided: (R1) the actor state is written only by CAS(running→killing), CAS(killing→killed) and the restart step's Store(running); the kill routine is entered only after a won CAS(running→killing) or for a zombie; " +
 			"(R2) the kill routine forwards Kill (same poison flag) to every child, one call per iteration, never leaving the loop early; (R3) the killed mark is taken only on the 'no children left' edge and every later step of the kill chain does nothing unless the mark was won; " +
 			"(R4) on the terminating path unsubscribe-all, registry removal, one OnKilled to every watcher and to the parent, ActorKilledEvent and scheduler clear each happen exactly once, and none of the first five is reachable on the restart path; the registry removal precedes every termination notice; " +
-			"(R5) ActorOf refuses when the parent is killed and kills the new child when the parent is killing; (R6) a child's death is recorded before the killed gate is evaluated. " +
+			"(R5) ActorOf refuses when the parent is killed and kills the new child when the parent is killing, and that decision is taken on a state read after the child is in the parent's table (F37: a sample from the entry goes stale when the root's ActorOf races its stop); (R6) a child's death is recorded before the killed gate is evaluated. " +
 			"(R10) the handler that records watchers stores the sender on every path, except on the edge where the sender is the parent (notified separately), where the same key is already recorded, or after telling the sender directly; " +
 			"(R9 = C20.R1) the scheduler-cleanup step deletes every recorded job, the loop is never left early. (R6, addition) inside the child-death step the dead child's table entry is removed before the user's handler for that death runs (a same-name re-spawn in the handler must not be deleted afterwards). NOT decided: cross-actor ordering of termination reports at run time, concurrent kills racing spawns.",
 		Assumptions: []string{"the kill chain steps are exactly the functions appended in the context's kill-chain builder (chain idiom)"},
@@ -26,7 +26,7 @@ func init() {
 			{ID: "C06.R2", Min: 2, Desc: "kill forwarded to all children with the same poison flag", Fn: c06Forward},
 			{ID: "C06.R3", Min: 6, Desc: "killed gate: no children left; later steps gated by the won mark", Fn: c06Gate},
 			{ID: "C06.R4", Min: 10, Desc: "cleanup completeness: each effect exactly once on termination, none on restart", Fn: c06Cleanup},
-			{ID: "C06.R5", Min: 2, Desc: "spawn while dying", Fn: c06SpawnWhileDying},
+			{ID: "C06.R5", Min: 3, Desc: "spawn while dying", Fn: c06SpawnWhileDying},
 			{ID: "C06.R6", Min: 1, Desc: "child death recorded before the killed gate", Fn: c06ChainOrder},
 			{ID: "C06.R8", Min: 4, Desc: "every spawned child is in the parent's child table before it runs, so the kill fan-out reaches it (C05.R2)", Fn: c05Spawn},
 			{ID: "C06.R9", Min: 2, Desc: "scheduler jobs of a dead actor are all deleted (C20.R1)", Fn: c20Die},
@@ -516,6 +516,67 @@ func c06SpawnWhileDying(p *Program, r *Report) {
 		}
 	}
 	r.Check(ok, "ActorOf kills a child spawned while the parent is killing", firstPos(g, kills), "with the observed state == killing every path from the OnLaunch tell to the return passes Kill(new child)")
+	// the observation that decides must not be stale: the root's ActorOf runs on any goroutine, so the parent can start to stop
+	// between a sample taken at the entry and the insertion of the child into its table — the fan-out then misses the child and
+	// the stale sample says "running" (F37). A load of the state AFTER the insertion exists, and on its not-running edge every
+	// path to the return kills the child.
+	children := p.childrenField(lc)
+	ins := map[int]bool{}
+	for _, a := range p.fieldAccesses(map[*types.Var]bool{children: true}) {
+		if a.Kind == "map-update" && g.owns(p, a.Fn) {
+			if n, in := g.Idx[a.In]; in {
+				ins[n] = true
+			}
+		}
+	}
+	// … or through a helper that inserts on every path (not spliced when it defers its unlock)
+	updFns := map[*ssa.Function]map[ssa.Instruction]bool{}
+	for _, a := range p.fieldAccesses(map[*types.Var]bool{children: true}) {
+		if a.Kind == "map-update" {
+			if updFns[a.Fn] == nil {
+				updFns[a.Fn] = map[ssa.Instruction]bool{}
+			}
+			updFns[a.Fn][a.In] = true
+		}
+	}
+	for i, nd := range g.Nodes {
+		cc, isCall := nd.(*ssa.Call)
+		if !isCall || g.Inlined[cc] != nil {
+			continue
+		}
+		if y := cc.Call.StaticCallee(); y != nil && updFns[y] != nil {
+			set := updFns[y]
+			if p.mustDo(y, func(in ssa.Instruction) bool { return set[in] }, 1) {
+				ins[i] = true
+			}
+		}
+	}
+	fresh := map[edge]bool{}
+	for _, ef := range p.edgeFacts(g) {
+		if ef.Field != lc.State || ef.Load == nil {
+			continue
+		}
+		ld, isIn := ef.Load.(ssa.Instruction)
+		if !isIn {
+			continue
+		}
+		li, in := g.Idx[ld]
+		if !in || !g.DominatedByNodes(li, ins) {
+			continue
+		}
+		// "not running": state != running, or state == killing / killed
+		f := ef.Fact
+		if (f.Op == token.NEQ && f.C == lc.Running) || (f.Op == token.EQL && (f.C == lc.Killing || f.C == lc.Killed)) {
+			fresh[ef.E] = true
+		}
+	}
+	okF := len(ins) > 0 && len(fresh) > 0
+	for e := range fresh {
+		if !kills[e.to] && anyIn(g.Reach([]int{e.to}, kills, nil), g.Exits) {
+			okF = false
+		}
+	}
+	r.Check(okF, "ActorOf decides on the state read after the child is in the table", firstPos(g, kills), "a load of the parent's state dominated by the child-table insertion exists, and from its not-running edge every path to the return passes Kill(new child): a parent that starts to stop while ActorOf runs either sees the child in its fan-out or is seen stopping here")
 }
 
 func c06ChainOrder(p *Program, r *Report) {
